@@ -8,6 +8,7 @@ import (
 )
 
 func (p *Pool) Send(ctx context.Context, e Event) {
+	verifhook.At("wpool.send.enter")
 	e.ctx = ctx
 
 	p.sendWg.Add(1)
@@ -17,11 +18,13 @@ func (p *Pool) Send(ctx context.Context, e Event) {
 		return
 	}
 	verifhook.At("wpool.send.accepted")
+	verifhook.At("wpool.send.beforeSelect")
 
 	select {
 	case <-p.ctx.Done():
 		return
 	case p.ch <- e:
+		verifhook.At("wpool.send.enqueued")
 	case <-time.After(p.opts.SendDuration):
 		p.lazySend(e)
 	}
